@@ -32,7 +32,8 @@ def generate(seed, scratch):
     rs = core.rng_for(seed, "sched")
     if cfg.get("dot_includes"):
         for p in sorted(world["files"]):
-            _dot_includes(world["files"][p]["items"], rs, cfg["dot_includes"])
+            if "items" in world["files"][p]:
+                _dot_includes(world["files"][p]["items"], rs, cfg["dot_includes"])
     return {"property": PID, "seed": seed, "world": world, "cfg": cfg,
             "schedule": {"rp_evict": "all" if rs.random() < 0.3 else sorted(rs.sample(range(60), 4)),
                          "cli": rs.random() < 0.5}}
@@ -108,7 +109,7 @@ def execute(case, scratch):
         for l in world.get("links", []):
             full = os.path.join(top, l["path"])
             kinds[l.get("kind", "?")] = kinds.get(l.get("kind", "?"), 0) + 1
-            if l.get("kind") in ("file", "dir") and not os.path.exists(full):
+            if l.get("kind") in ("file", "dir", "xfile") and not os.path.exists(full):
                 return {"verdict": "invalid", "detail": f"link {l['path']} does not resolve", "stats": stats}
         for k, v in kinds.items():
             stats["faults"][k + "_link"] = v
@@ -157,7 +158,7 @@ def execute(case, scratch):
                         paths.append(os.path.join(top, l["path"] + m[len(tgt):]))
                         want.append(True)
                         break
-            elif l.get("kind") == "file":
+            elif l.get("kind") in ("file", "xfile"):
                 tgt = os.path.normpath(os.path.join(os.path.dirname(l["path"]), l["target"]))
                 paths.append(lp)
                 want.append(tgt in mc)
@@ -235,7 +236,7 @@ ASSUMPTIONS = [
 
 
 def dead_probes(tier, cov):
-    dead = [k for k in ("file_link", "dir_link", "dangling_link", "outside_link", "realpath_cache_eviction")
+    dead = [k for k in ("file_link", "xfile_link", "dir_link", "dangling_link", "outside_link", "realpath_cache_eviction")
             if cov["faults_fired"].get(k, 0) == 0]
     dead += [k for k in ("aliased_references", "member_reached_by_link") if cov["probes"].get(k, 0) == 0]
     return dead if cov["evaluations"] >= 100 else []
